@@ -201,6 +201,47 @@ func vf34EditSecondHello(rt *rapid.T, c *vf34CH, l string) string {
 	}
 }
 
+// vf34SetECH replaces (or adds / removes) the encrypted_client_hello extension of a hello by a drawn form: absent, the
+// inner-type marker, an outer-type extension with drawn suite / config id / enc / payload, or a truncated one. Applied
+// to the first and to the second hello independently, so that the server sees every combination of types across a
+// HelloRetryRequest (it keeps ECH state from the first hello and compares the second with it).
+func vf34SetECH(rt *rapid.T, c *vf34CH, l string) string {
+	pick := func(n int, s string) int { return rapid.IntRange(0, n-1).Draw(rt, l+"_"+s) }
+	var body []byte
+	name := ""
+	switch pick(5, "form") {
+	case 0:
+		if i := vf34ExtIdx(c, 0xfe0d); i >= 0 {
+			c.Exts = append(c.Exts[:i], c.Exts[i+1:]...)
+		}
+		return "ech-absent"
+	case 1:
+		body, name = []byte{1}, "ech-inner"
+	case 2, 3:
+		kdf := []int{0, 1, 2}[pick(3, "kdf")]
+		aead := []int{0, 1, 3}[pick(3, "aead")]
+		id := []int{0, 7, 255}[pick(3, "id")]
+		enc := make([]byte, []int{0, 0, 32, 5}[pick(4, "enc")])
+		payload := make([]byte, []int{0, 16, 20, 200}[pick(4, "payload")])
+		body = []byte{0}
+		body = vf34PutU16(body, kdf)
+		body = vf34PutU16(body, aead)
+		body = append(body, byte(id))
+		body = append(body, vf34Vec16(enc)...)
+		body = append(body, vf34Vec16(payload)...)
+		name = fmt.Sprintf("ech-outer(kdf=%d,aead=%d,id=%d,enc=%d,payload=%d)", kdf, aead, id, len(enc), len(payload))
+	default:
+		body = [][]byte{{}, {0}, {0, 0, 1}, {2}, {1, 0}}[pick(5, "bad")]
+		name = fmt.Sprintf("ech-malformed(%x)", body)
+	}
+	if i := vf34ExtIdx(c, 0xfe0d); i >= 0 {
+		c.Exts[i].Body = body
+	} else {
+		c.Exts = append(c.Exts, vfExt{Type: 0xfe0d, Body: body})
+	}
+	return name
+}
+
 func TestVerifC34HRRSecondHello(t *testing.T) {
 	env := vf34GetEnv()
 	st := vfNewStats(t, "C34")
@@ -263,6 +304,9 @@ func TestVerifC34HRRSecondHello(t *testing.T) {
 		pub := key.PublicKey().Bytes()
 		c2.Exts[vf34ExtIdx(c2, 51)].Body = vf34Vec16(append(vf34PutU16(nil, int(hb.group)), vf34Vec16(pub)...))
 		var muts []string
+		if rapid.IntRange(0, 2).Draw(rt, "ech_pair") == 0 {
+			muts = append(muts, "first-hello-"+vf34SetECH(rt, c1, "ech1"), "second-hello-"+vf34SetECH(rt, c2, "ech2"))
+		}
 		for k, n := 0, rapid.IntRange(0, 2).Draw(rt, "n_edits"); k < n; k++ {
 			muts = append(muts, vf34EditSecondHello(rt, c2, fmt.Sprintf("e%d", k)))
 		}
